@@ -2,6 +2,8 @@ import LdkModel.Driver.Util
 import LdkModel.Model.Onion
 import LdkModel.Generated.OnionFail
 import LdkModel.Generated.OnionPayloads
+import LdkModel.Model.OnionInstr
+import LdkModel.Generated.OnionBlinded
 /- C14 driver: the model functions of Model/Onion.lean instantiated with ChaCha20 / HMAC-SHA256
    (`Onion.ldk`) and LDK's key derivations.  Ops (hex for bytes, `-` = empty):
      build <L|std> <prng-seed> <assoc-data> <n> (<shared-secret> <payload>)*   → <hop_data> <hmac> | err
@@ -20,12 +22,21 @@ import LdkModel.Generated.OnionPayloads
          (`attr`) or without (`legacy`: a failing node that does not support attribution data) attribution data,
          relayed by hops k-1 … 0, decoded by the sender; answer = lengths / attribution data kept at each relay /
          wire lengths / SHA-256 digests of the final packet and attribution data / decoded hop, code, data digest, hold times
+     fwdfail <intro|inside|none> <ss> reason <code> <data> | fwdfail <…> <ss> down <pkt> <attr|none> <hold>
+         → pkt <packet> <attribution data> | malformed <code> <sha256_of_onion>     (GENERATED getHtlcForwardFailure)
+     faildecodeb <num_blinded_hops> <u> <n> <ss>* <pkt>  → within <loop index> | attributed k code data | …
+         the sender's loop for a path whose first u hops have a RouteHop and the rest are blinded (GENERATED decodeFailureB)
      payload <variant> <nf> (<field> <hex|none>)* <nt> (<type> <hex>)*   → <serialized payload> inc=<0|1>
          the GENERATED encoder of that payload kind (Generated/OnionPayloads.lean) on the serialized field values and the
          user's custom TLVs; inc = would the encoder's debug TLV-order check pass
      customnew <n> (<type> <hex>)*                                        → ok <sorted tlvs> | err   (RecipientCustomTlvs::new)
      payloaddec <payload> <update_add blinding point 0|1> <fwd|recv|dummy|na> <show invreq 0|1>
-         the receiving side: record-level decode_tlv_stream_with_custom_tlv_decode! + the translated kind decision
+         the receiving side (`readInstr`): framing, record-level decode_tlv_stream_with_custom_tlv_decode!, the reader's
+         generated VALUE encodings, the translated kind decision → the instruction VALUES
+     instr forward <scid> <amt> <cltv> | instr receive <amt> <cltv> <secret|none> <total> <meta|none> <keysend|none> <nt> (<type> <hex>)*
+     instr blindedForward <enc> <bp|none> | instr blindedReceive <amt> <total> <cltv> <enc> <bp|none> <keysend|none> <invreq|none> <nt> (<type> <hex>)*
+         → the serialized hop payload `HopInstr.encode` writes for these VALUES (decimal integers; generated constructors
+           and generated value encodings: HighZeroBytesDroppedBigSize etc. are applied by the MODEL)
    The payload TLV pretty-printer below is presentation only (the model treats payloads as opaque
    length-framed byte strings). -/
 namespace Ldk.Driver
@@ -109,25 +120,29 @@ def showRecs (l : List Rec) : String :=
 
 def recsOf (ws : List String) : List Rec := (pairsOf ws).map fun (t, v) => (nat! t, unhex v)
 
-def lookupRec (l : List Rec) (t : Nat) : Option (List UInt8) := (l.find? (fun r => r.1 == t)).map (·.2)
-
 def showNum : Option (List UInt8) → String
   | none => "none"
   | some v => toString (OnionPayload.beNat v)
 
-/-- canonical text of what the receiving hop learns from a decoded payload -/
-def showDecoded (kind : InKind) (typed custom : List Rec) (showInv : Bool) : String :=
-  let g := lookupRec typed
-  match kind with
-  | .forward => s!"kind=forward amt={showNum (g 2)} cltv={showNum (g 4)} scid={showNum (g 6)}"
-  | .receive =>
-    s!"kind=receive amt={showNum (g 2)} cltv={showNum (g 4)} secret={optHex ((g 8).map (·.take 32))} total={showNum ((g 8).map (·.drop 32))} meta={optHex (g 16)} keysend={optHex (g 5482373484)} custom={showRecs custom}"
-  | .blindedForward => "kind=blindedForward"
-  | .dummy => "kind=dummy"
-  | .trampolineEntrypoint => "kind=trampolineEntrypoint"
-  | .blindedReceive =>
-    let inv := if showInv then optHex ((g 77777).map Prim.sha256) else "hidden"
-    s!"kind=blindedReceive amt={showNum (g 2)} cltv={showNum (g 4)} total={showNum (g 18)} keysend={optHex (g 5482373484)} invreq={inv} custom={showRecs custom}"
+def showNat : Option Nat → String
+  | none => "none"
+  | some n => toString n
+
+/-- canonical text of what the receiving hop learns from a decoded payload (`readInstr`: framing, record loop, VALUE
+    decoders of the reader's generated encoding table, translated kind decision) -/
+def showInstr (kind : InKind) (i : HopInstr) (showInv : Bool) : String :=
+  match kind, i with
+  | .dummy, _ => "kind=dummy"
+  | _, .forward scid amt cltv => s!"kind=forward amt={amt} cltv={cltv} scid={scid}"
+  | _, .receive amt cltv pd md ks custom =>
+    s!"kind=receive amt={amt} cltv={cltv} secret={optHex (pd.map (·.1))} total={showNat (pd.map (·.2))} meta={optHex md} keysend={optHex ks} custom={showRecs custom}"
+  | _, .blindedForward _ _ => "kind=blindedForward"
+  | _, .trampolineEntrypoint _ _ _ _ _ => "kind=trampolineEntrypoint"
+  | _, .blindedReceive amt total cltv _ _ ks ir custom =>
+    let inv := if showInv then optHex (ir.map Prim.sha256) else "hidden"
+    s!"kind=blindedReceive amt={amt} cltv={cltv} total={total} keysend={optHex ks} invreq={inv} custom={showRecs custom}"
+
+def optBytes (s : String) : Option (List UInt8) := if s == "none" then none else some (unhex s)
 
 def c14 : Drv where
   σ := Unit
@@ -215,17 +230,40 @@ def c14 : Drv where
       | none => ((), "err")
       | some c => ((), s!"ok {showRecs c}")
     | ["payloaddec", payload, ubp, inner, showInv] =>
-      match parsePayload (unhex payload) with
-      | none => ((), "err framing")
-      | some recs =>
-        match decodeRecords inboundKnownTypes customTlvMin recs with
-        | .error .invalidValue => ((), "err InvalidValue")
-        | .error .unknownRequired => ((), "err UnknownRequiredFeature")
-        | .ok (typed, custom) =>
-          let inn : BlindedInner := if inner == "fwd" then .forward else if inner == "dummy" then .dummy else .receive
-          match classifyInbound (presenceOf typed) (ubp == "1") inn with
-          | none => ((), "err InvalidValue")
-          | some kind => ((), showDecoded kind typed custom (showInv == "1"))
+      let inn : BlindedInner := if inner == "fwd" then .forward else if inner == "dummy" then .dummy else .receive
+      match readInstr (unhex payload) (ubp == "1") inn with
+      | .error .framing => ((), "err framing")
+      | .error .invalidValue => ((), "err InvalidValue")
+      | .error .unknownRequired => ((), "err UnknownRequiredFeature")
+      | .ok (kind, i) => ((), showInstr kind i (showInv == "1"))
+    | ["instr", "forward", scid, amt, cltv] => ((), hex (HopInstr.forward (nat! scid) (nat! amt) (nat! cltv)).encode)
+    | "instr" :: "receive" :: amt :: cltv :: secret :: total :: md :: ks :: nt :: rest =>
+      if rest.length ≠ 2 * nat! nt then ((), "bad-op") else
+      let pd := (optBytes secret).map fun s => (s, nat! total)
+      ((), hex (HopInstr.receive (nat! amt) (nat! cltv) pd (optBytes md) (optBytes ks) (recsOf rest)).encode)
+    | ["instr", "blindedForward", enc, bp] => ((), hex (HopInstr.blindedForward (unhex enc) (optBytes bp)).encode)
+    | "instr" :: "blindedReceive" :: amt :: total :: cltv :: enc :: bp :: ks :: ir :: nt :: rest =>
+      if rest.length ≠ 2 * nat! nt then ((), "bad-op") else
+      ((), hex (HopInstr.blindedReceive (nat! amt) (nat! total) (nat! cltv) (unhex enc) (optBytes bp) (optBytes ks) (optBytes ir) (recsOf rest)).encode)
+    | "fwdfail" :: mode :: ss :: rest =>
+      let bf : Option BlindedFailure := if mode == "intro" then some .fromIntroductionNode else if mode == "inside" then some .fromBlindedNode else none
+      let e : Option OnionError := match rest with
+        | ["reason", code, data] => some (.reason (nat! code) (unhex data))
+        | ["down", pkt, attr, hold] => some (.lightningError ⟨unhex pkt, attrOf attr⟩ (some (nat! hold)))
+        | _ => none
+      match e with
+      | none => ((), "bad-op")
+      | some e =>
+        match getHtlcForwardFailure ldk bf e (failKeysXOfSecret (unhex ss)) with
+        | .failHtlc p => ((), s!"pkt {hex p.data} {showAttr p.attr}")
+        | .failMalformed c sha => ((), s!"malformed {c} {hex sha}")
+    | "faildecodeb" :: nb :: u :: n :: rest =>
+      if rest.length ≠ nat! n + 1 then ((), "bad-op") else
+      let keys := (rest.take (nat! n)).map fun ss => failKeysOfSecret (unhex ss)
+      let hops := pathHops (keys.take (nat! u)) (keys.drop (nat! u))
+      match decodeFailureB ldk (nat! nb) hops (unhex (rest.getLast?.getD "-")) with
+      | .withinBlindedPath i => ((), s!"within {i}")
+      | .plain d => ((), showFail d)
     | "faildecode" :: n :: rest =>
       if rest.length ≠ nat! n + 1 then ((), "bad-op") else
       let keys := (rest.take (nat! n)).map fun ss => failKeysOfSecret (unhex ss)
